@@ -5,6 +5,8 @@ import JunoModel.C07.ModelVal
 import JunoModel.C07.Tables
 import JunoModel.C07.ModelAccess
 import JunoModel.C07.ModelBin
+import JunoModel.C07.ModelChain
+import JunoModel.C07.ModelPrune
 /-! Line-protocol driver for the C07 model (`lake build c07drv`).
 
 Requests (hex = lower-case hex, `-` = empty byte string):
@@ -28,6 +30,34 @@ Requests (hex = lower-case hex, `-` = empty byte string):
   casm <declaredAt> <v2 hex> <migratedAt> <v1 hex | n>   ClassCasmHashMetadata.MarshalBinary → `ok <hex>`
   uncasm <hex>              ClassCasmHashMetadata.UnmarshalBinary              → `ok <declaredAt> <v2> <migratedAt> <v1|n>` | `err`
   lim <maxArray> <maxMap> <maxNest> <hex>   does the limited decoder accept the item → `ok` | `rejected` | `err`
+
+Round 4 — extractors on a stored blob (u = decimal uint64 index):
+  txat <hex> <u> / rcat <hex> <u>   item bytes through `int(index)`           → `ok <hex>` | `notfound` | `err` | `panic`
+  pairat <hex> <u>          extractTransactionAndReceipt                       → `ok <txhex> <rchex>` | …
+  allpair <hex>             extractAllTransactionsAndReceipts                  → `ok <n> <m> <hex>*` | …
+  hashes <mode> <hex>       extractAllTransactionHashes                        → `ok <value>*` | `err <first failing index>` | `panic`
+  events <mode> <hex>       extractAllTransactionEvents                        → `ok <n> (<events value> <hash value>)*` | …
+  statusat <mode> <hex> <u> extractExecutionStatus                             → `ok <value> <value>` | …
+  into <mode> <hex1> <hex2> decode record 1, then record 2 INTO THE SAME (Reverted, RevertReason) value → `ok <value> <value>` | `err`
+  fbytes <a>,<b>,<c>,<d>    felt.Marshal of Montgomery limbs (hex)             → `ok <hex32>`
+Round 4 — the store (the driver keeps a key/value store between requests):
+  s.reset                                                                      → `ok`
+  s.put <key> <val> / s.del <key>                                              → `ok`
+  s.write <mode> <num> <hdr> <blob> <su> <comm> <m> (<txhash> <msghash>)*m
+                            writeBlockContent of the record DERIVED from the stored bytes → `ok <blockhash> <ntx> <nl1>` | `err`
+  s.deltx <mode> <num> <m> (<txhash> <msghash>)*m   DeleteTransactionsAndReceipts → `ok` | `notfound` | `err` | `panic`
+  s.revert <mode> <m> (<txhash> <msghash>)*m        RevertHead (block records)  → `ok` | `notfound` | `err` | `panic`
+  s.prune <end>             pruner.PruneBlockDataUpto (byte-range deletes between encoded keys) → `ok`
+  s.hpmigrate <mode> <floor> <height> <m> (<txhash> <msghash>)*m
+                            history-pruner migration on the block-record buckets (prune, wipe the
+                            reverse lookups, seed floor-1, restorer for floor..height)  → `ok` | `notfound` | `err` | `panic`
+  s.digest                  every live key, sorted: `<key>:<len>:<checksum>`    → `ok <n> <entry>,…`
+  s.get <key>                                                                  → `ok <hex>` | `none`
+  s.height                                                                     → `ok <n>` | `none`
+  s.block <n> / s.blockbyhash <hash> / s.head       header bytes + item bytes  → `ok <hdr> <n> <m> <hex>*` | …
+  s.txbyhash <hash>         GetTransactionByHash (item bytes)                  → `ok <hex>` | …
+  s.rcbyhash <mode> <hash>  Blockchain.Receipt: item bytes, block hash, number → `ok <hex> <hash> <n>` | …
+  s.hdrbyhash <hash> / s.subyhash <hash> / s.l1 <msghash>                      → `ok <hex>` | `none`
 
 Value syntax (prefix form, space separated):
   n | _ | u<dec> | T | F | s<hex> | b<hex> | f<hex>,<hex>,<hex>,<hex> | r<hex of the item's CBOR>
@@ -178,8 +208,176 @@ def accessor (name : String) (cfg : DecCfg) (bs : Bytes) : Option String :=
   | "TransactionHash" => some (showOpt (getTransactionHash cfg bs))
   | _ => none
 
-def step (s : Unit) (line : String) : Unit × String :=
+
+/-! ### round 4: store helpers -/
+
+def cksum (bs : Bytes) : Nat := bs.foldl (fun h b => (h * 257 + b.toNat + 1) % 36028797018963913) 7
+
+def bytesLe (a b : Bytes) : Bool := !(bytesLt b a)
+
+/-- Live keys (most recent write wins), sorted bytewise. -/
+def liveKeys (s : Store) : List Bytes :=
+  let ks := s.foldr (fun e acc => if acc.contains e.1 then acc else e.1 :: acc) []
+  ks.mergeSort bytesLe
+
+def digest (s : Store) : String :=
+  let ks := liveKeys s
+  let ents := ks.filterMap (fun k => (s.get k).map (fun v => bytesToHex k ++ ":" ++ toString v.length ++ ":" ++ toString (cksum v)))
+  "ok " ++ toString ents.length ++ " " ++ ",".intercalate ents
+
+def parseL1 : List String → Option (List (Bytes × Bytes))
+  | [] => some []
+  | [_] => none
+  | a :: b :: rest => do
+    let x ← hexToBytes? a
+    let y ← hexToBytes? b
+    let tl ← parseL1 rest
+    pure ((x, y) :: tl)
+
+def showStoreRes : Res Store → Store → Store × String
+  | .ok s', _ => (s', "ok")
+  | .notFound, s => (s, "notfound")
+  | .decodeErr, s => (s, "err")
+  | .panic, s => (s, "panic")
+
+def showBlock (r : Res (Bytes × List Bytes × List Bytes)) : String :=
+  showRes (fun (x : Bytes × List Bytes × List Bytes) =>
+    " ".intercalate ([bytesToHex x.1, toString x.2.1.length, toString x.2.2.length] ++ (x.2.1 ++ x.2.2).map bytesToHex)) r
+
+def showValList (vs : List GoVal) : String := " ".intercalate (vs.map showValue)
+
+def step (s : Store) (line : String) : Store × String :=
   match words line with
+  | ["s.reset"] => ([], "ok")
+  | ["s.put", k, v] =>
+    match hexToBytes? k, hexToBytes? v with
+    | some k, some v => (s.put k v, "ok")
+    | _, _ => (s, "bad-op")
+  | ["s.del", k] =>
+    match hexToBytes? k with
+    | some k => (s.del k, "ok")
+    | none => (s, "bad-op")
+  | "s.write" :: mode :: num :: hdr :: blob :: su :: comm :: _m :: l1 =>
+    match cfgOf? mode, num.toNat?, hexToBytes? hdr, hexToBytes? blob, hexToBytes? su, hexToBytes? comm, parseL1 l1 with
+    | some cfg, some n, some hdr, some blob, some su, some comm, some l1 =>
+      match BlockRec.ofStored cfg l1 n hdr blob su comm with
+      | some b => (writeBlock s b, s!"ok {bytesToHex b.hash} {b.txHashes.length} {b.l1.length}")
+      | none => (s, "err")
+    | _, _, _, _, _, _, _ => (s, "bad-op")
+  | "s.deltx" :: mode :: num :: _m :: l1 =>
+    match cfgOf? mode, num.toNat?, parseL1 l1 with
+    | some cfg, some n, some l1 => showStoreRes (deleteTxsAndReceipts (txKeysTyped cfg l1) s n) s
+    | _, _, _ => (s, "bad-op")
+  | "s.revert" :: mode :: _m :: l1 =>
+    match cfgOf? mode, parseL1 l1 with
+    | some cfg, some l1 => showStoreRes (revertHead (hashOfHeader cfg) (txKeysTyped cfg l1) s) s
+    | _, _ => (s, "bad-op")
+  | ["s.prune", e] =>
+    match e.toNat? with
+    | some e => (pruneBlockDataUpto s e, "ok")
+    | none => (s, "bad-op")
+  | "s.hpmigrate" :: mode :: fl :: ht :: _m :: l1 =>
+    match cfgOf? mode, fl.toNat?, ht.toNat?, parseL1 l1 with
+    | some cfg, some fl, some ht, some l1 =>
+      showStoreRes (hpMigrate (fullHeaderHash cfg) (stateUpdateHash cfg) (txKeysTyped cfg l1) s fl ht) s
+    | _, _, _, _ => (s, "bad-op")
+  | ["s.digest"] => (s, digest s)
+  | ["s.get", k] =>
+    match hexToBytes? k with
+    | some k => (s, match s.get k with | some v => "ok " ++ bytesToHex v | none => "none")
+    | none => (s, "bad-op")
+  | ["s.height"] => (s, match getChainHeight s with | some n => s!"ok {n}" | none => "none")
+  | ["s.block", n] =>
+    match n.toNat? with
+    | some n => (s, showBlock (getBlockByNumber raw raw raw s n))
+    | none => (s, "bad-op")
+  | ["s.blockbyhash", h] =>
+    match hexToBytes? h with
+    | some h => (s, showBlock (getBlockByHash raw raw raw s h))
+    | none => (s, "bad-op")
+  | ["s.head"] => (s, showBlock (getHead raw raw raw s))
+  | ["s.txbyhash", h] =>
+    match hexToBytes? h with
+    | some h => (s, showRes bytesToHex (getTxByHashAt raw s h))
+    | none => (s, "bad-op")
+  | ["s.rcbyhash", mode, h] =>
+    match cfgOf? mode, hexToBytes? h with
+    | some cfg, some h =>
+      (s, showRes (fun (x : Bytes × Bytes × Nat) => s!"{bytesToHex x.1} {bytesToHex x.2.1} {x.2.2}")
+        (getReceiptByHash raw (hashOfHeader cfg) s h))
+    | _, _ => (s, "bad-op")
+  | ["s.hdrbyhash", h] =>
+    match hexToBytes? h with
+    | some h => (s, match getHeaderByHash s h with | some v => "ok " ++ bytesToHex v | none => "none")
+    | none => (s, "bad-op")
+  | ["s.subyhash", h] =>
+    match hexToBytes? h with
+    | some h => (s, match getStateUpdateByHash s h with | some v => "ok " ++ bytesToHex v | none => "none")
+    | none => (s, "bad-op")
+  | ["s.l1", m] =>
+    match hexToBytes? m with
+    | some m => (s, match getL1TxHash s m with | some v => "ok " ++ bytesToHex v | none => "none")
+    | none => (s, "bad-op")
+  | ["into", mode, h1, h2] =>
+    match cfgOf? mode, hexToBytes? h1, hexToBytes? h2 with
+    | some cfg, some b1, some b2 =>
+      match (statusInto cfg [.bool false, .str []] b1).bind (fun v => statusInto cfg v b2) with
+      | some [a, b] => (s, "ok " ++ showValue a ++ " " ++ showValue b)
+      | _ => (s, "err")
+    | _, _, _ => (s, "bad-op")
+  | ["fbytes", f] =>
+    match f.splitOn "," with
+    | [a, b, c, d] =>
+      match hexNat? a, hexNat? b, hexNat? c, hexNat? d with
+      | some a, some b, some c, some d => (s, "ok " ++ bytesToHex (feltBytes a b c d))
+      | _, _, _, _ => (s, "bad-op")
+    | _ => (s, "bad-op")
+  | ["txat", h, u] =>
+    match hexToBytes? h, u.toNat? with
+    | some bs, some u => (s, showRes bytesToHex (readBlob bs (fun b => b.getTxAt raw u)))
+    | _, _ => (s, "bad-op")
+  | ["rcat", h, u] =>
+    match hexToBytes? h, u.toNat? with
+    | some bs, some u => (s, showRes bytesToHex (readBlob bs (fun b => b.getRcAt raw u)))
+    | _, _ => (s, "bad-op")
+  | ["pairat", h, u] =>
+    match hexToBytes? h, u.toNat? with
+    | some bs, some u =>
+      (s, showRes (fun (x : Bytes × Bytes) => bytesToHex x.1 ++ " " ++ bytesToHex x.2)
+        (readBlob bs (fun b => b.getTxAndRcAt raw raw u)))
+    | _, _ => (s, "bad-op")
+  | ["allpair", h] =>
+    match hexToBytes? h with
+    | some bs =>
+      (s, showRes (fun (x : List Bytes × List Bytes) =>
+        " ".intercalate ([toString x.1.length, toString x.2.length] ++ (x.1 ++ x.2).map bytesToHex))
+        (readBlob bs (fun b => b.allTxAndRc raw raw)))
+    | none => (s, "bad-op")
+  | ["hashes", mode, h] =>
+    match cfgOf? mode, hexToBytes? h with
+    | some cfg, some bs =>
+      match readBlob bs (fun b => b.allTxHashes cfg) with
+      | .ok vs => (s, "ok " ++ toString vs.length ++ " " ++ showValList vs)
+      | .decodeErr =>
+        match Blob.unmarshal bs with
+        | some b => (s, match b.allTxHashesFailAt cfg with | some i => s!"err {i}" | none => "err")
+        | none => (s, "err")
+      | .notFound => (s, "notfound")
+      | .panic => (s, "panic")
+    | _, _ => (s, "bad-op")
+  | ["events", mode, h] =>
+    match cfgOf? mode, hexToBytes? h with
+    | some cfg, some bs =>
+      (s, showRes (fun (es : List (GoVal × GoVal)) =>
+        toString es.length ++ " " ++ " ".intercalate (es.map (fun e => showValue e.1 ++ " " ++ showValue e.2)))
+        (readBlob bs (fun b => b.allEvents cfg)))
+    | _, _ => (s, "bad-op")
+  | ["statusat", mode, h, u] =>
+    match cfgOf? mode, hexToBytes? h, u.toNat? with
+    | some cfg, some bs, some u =>
+      (s, showRes (fun (x : GoVal × GoVal) => showValue x.1 ++ " " ++ showValue x.2)
+        (readBlob bs (fun b => b.executionStatusAt cfg u)))
+    | _, _, _ => (s, "bad-op")
   | ["type", name] =>
     match tableByName name with
     | some t => (s, "ok " ++ descType t)
@@ -298,4 +496,4 @@ def step (s : Unit) (line : String) : Unit × String :=
     | none => (s, "bad-op")
   | _ => (s, "bad-op")
 
-def main : IO Unit := loop step ()
+def main : IO Unit := loop step []
